@@ -62,7 +62,7 @@ Init == /\ seq = [t \in Tables |-> 1] /\ lock = [t \in Tables |-> "free"]
         /\ store = NilStore
         /\ \E f \in [Sessions -> ACs] :
              sess = [s \in Sessions |-> [txn |-> "none", ac |-> f[s], co |-> Main, snap |-> NilStore, mine |-> NilStore, dirty |-> {},
-                                          lid |-> 0, pc |-> "idle", op |-> <<>>, ld |-> 0]]
+                                          lid |-> 0, pc |-> "idle", op |-> <<>>, ld |-> 0, errt |-> {}]]
         /\ gen = EmptyT /\ expl = EmptyT
         /\ bad = [dup |-> FALSE, nonmono |-> FALSE]
         /\ hist = IF RecordHist THEN <<[a |-> "Init", s |-> "none", args |-> [ac |-> [s \in Sessions |-> sess[s].ac]],
@@ -117,7 +117,7 @@ InsertGen(s, t, k) ==
        /\ gen' = [gen EXCEPT ![t] = @ \cup ids]
        /\ bad' = [dup |-> bad.dup \/ ids \cap gen[t] # {}, nonmono |-> bad.nonmono \/ seq[t] <= Max(gen[t])]
        /\ UNCHANGED <<lock, expl>>
-       /\ Stmt(s, "InsertGen", [t |-> t, k |-> k], [sess[s] EXCEPT !.lid = seq[t]], [m EXCEPT ![b][t] = @ \cup ids], Dirty(s) \cup {b},
+       /\ Stmt(s, "InsertGen", [t |-> t, k |-> k], [sess[s] EXCEPT !.lid = seq[t], !.errt = @ \ {t}], [m EXCEPT ![b][t] = @ \cup ids], Dirty(s) \cup {b},
                "ok", [ids |-> SetSeq(ids), lid |-> seq[t]], FALSE, t)
 
 \* INSERT INTO t (id, x) VALUES (n, 0): Next(n) runs before the row is written, so a duplicate key still advances the sequence
@@ -129,7 +129,8 @@ InsertExplicit(s, t, n) ==
        /\ seq' = [seq EXCEPT ![t] = ExplNext(@, n).next]
        /\ expl' = [expl EXCEPT ![t] = @ \cup {n}]
        /\ UNCHANGED <<lock, gen, bad>>
-       /\ Stmt(s, "InsertExplicit", [t |-> t, n |-> n], sess[s], IF dupk THEN m ELSE [m EXCEPT ![b][t] = @ \cup {n}],
+       /\ Stmt(s, "InsertExplicit", [t |-> t, n |-> n], [sess[s] EXCEPT !.errt = IF dupk THEN @ \cup {t} ELSE @ \ {t}],
+               IF dupk THEN m ELSE [m EXCEPT ![b][t] = @ \cup {n}],
                IF dupk THEN Dirty(s) ELSE Dirty(s) \cup {b}, IF dupk THEN "dup" ELSE "ok", [lid |-> sess[s].lid], FALSE, t)
 
 Delete(s, t, n) ==
@@ -137,16 +138,20 @@ Delete(s, t, n) ==
         m == Mine(s)
     IN /\ Idle(s)
        /\ UNCHANGED <<seq, lock, gen, expl, bad>>
-       /\ Stmt(s, "Delete", [t |-> t, n |-> n], sess[s], [m EXCEPT ![b][t] = @ \ {n}],
+       /\ Stmt(s, "Delete", [t |-> t, n |-> n], [sess[s] EXCEPT !.errt = @ \ {t}], [m EXCEPT ![b][t] = @ \ {n}],
                IF n \in m[b][t] THEN Dirty(s) \cup {b} ELSE Dirty(s), "ok", [aff |-> IF n \in m[b][t] THEN 1 ELSE 0], FALSE, t)
 
 (* ALTER TABLE t AUTO_INCREMENT = n (SequenceTracker.Set; DDL commits implicitly).  Generated only for
-   n > current value (the tracker moves up for every branch) and for n <= largest id of the session's table (no effect). *)
+   n > current value (the tracker moves up for every branch) and for n <= largest id of the session's table (no effect).
+   Not generated while the session's last data statement on t failed with a duplicate key (errt): the table writer keeps
+   that error (prollyTableWriter.errEncountered) and the ALTER, which never calls StatementBegin on it, reports it as its
+   own -- a spurious error unrelated to C28, see LEADS.md. *)
 AlterAI(s, t, n) ==
     LET b == sess[s].co
         m == Mine(s)
         raise == n > seq[t]
     IN /\ Idle(s) /\ lock[t] = "free"
+       /\ t \notin sess[s].errt
        /\ raise \/ n <= Max(m[b][t])
        /\ Dirty(s) \subseteq {b}
        /\ seq' = [seq EXCEPT ![t] = IF raise THEN n ELSE @]
@@ -192,8 +197,9 @@ NStore(s) ==
         r == IF given = 0 THEN GenNext(sess[s].ld) ELSE ExplNext(sess[s].ld, given)
         b == sess[s].co
         m == Mine(s)
-        rec == [sess[s] EXCEPT !.pc = "idle", !.op = <<>>, !.ld = 0, !.lid = IF given = 0 THEN r.id ELSE @]
         dupk == r.id \in m[b][t]
+        rec == [sess[s] EXCEPT !.pc = "idle", !.op = <<>>, !.ld = 0, !.lid = IF given = 0 THEN r.id ELSE @,
+                               !.errt = IF dupk THEN @ \cup {t} ELSE @ \ {t}]
     IN /\ sess[s].pc = "loaded"
        /\ seq' = [seq EXCEPT ![t] = IF given = 0 \/ given >= sess[s].ld THEN r.next ELSE @]
        /\ lock' = IF UseLock THEN [lock EXCEPT ![t] = "free"] ELSE lock
